@@ -486,6 +486,10 @@ class Table(Vector):
 				
 				# Replace the column at validated index
 				if not isinstance(value, Vector):
+					# (a string, a number or a mapping is ONE value, not a column of values: t.a = 'xy' is
+					# refused like t >> {'a': 'xy'}, it does not spread the characters over the rows)
+					if not isinstance(value, Iterable) or isinstance(value, (str, bytes, bytearray, int, float, complex, Enum, Mapping)):
+						raise SerifTypeError(f"Cannot assign column '{attr}': expected a sequence of {self._length} values, not {type(value).__name__}")
 					value = Vector(value)
 				
 				if self._underlying and len(value) != self._length:
@@ -502,6 +506,10 @@ class Table(Vector):
 			if col_idx is not None:
 				# Replace the column in _underlying
 				if not isinstance(value, Vector):
+					# (a string, a number or a mapping is ONE value, not a column of values: t.a = 'xy' is
+					# refused like t >> {'a': 'xy'}, it does not spread the characters over the rows)
+					if not isinstance(value, Iterable) or isinstance(value, (str, bytes, bytearray, int, float, complex, Enum, Mapping)):
+						raise SerifTypeError(f"Cannot assign column '{attr}': expected a sequence of {self._length} values, not {type(value).__name__}")
 					value = Vector(value)
 				
 				# Validate length
